@@ -310,3 +310,19 @@ package layer
 //@   requires l != nil && l.resolver != nil && l.resolver.backgroundTaskManager != nil
 //@   assert[C13] before "err = l.prefetch(ctx, prefetchSize)" : prioBegun == old(prioBegun) + 1 && prioDone == old(prioDone)
 //@   ensures[C13] prioBegun == old(prioBegun) + 1 && prioDone == old(prioDone) + 1
+
+// ---- C15: the background fetch walks every file of the layer ----
+// "BackgroundFetch returned nil" is taken to mean that every chunk of every regular file is in the cache. The walk
+// (VerifiableReader.Cache) visits exactly the files its filter option lets through, so the background fetch hands it
+// no filter at all: skipping "what prefetch already cached" would trust a prefetch whose caching phase may have failed
+// (filtersMade: ghost count of reader.WithFilter options created; only prefetch creates one).
+//@ ghost filtersMade int quiet
+//@ func fs/reader.WithFilter
+//@   trusted
+//@   modifies filtersMade
+//@   ensures filtersMade == old(filtersMade) + 1 && result != nil
+//@ func (l *layer) backgroundFetch
+//@   props C15
+//@   taggedonly
+//@   requires l != nil && l.verifiableReader != nil && l.blob != nil && l.blob.Blob != nil && l.resolver != nil
+//@   ensures[C15] filtersMade == old(filtersMade)
